@@ -3,7 +3,7 @@ open Wl2k Wl2k.Ops
 
 def allOps : List (String × Handler) :=
   [("echo", fun a => match allBytes a with | some [b] => toHexField b | _ => "bad-op")]
-  ++ Ops.Secure.ops ++ Ops.PosRep.ops ++ Ops.Msg.ops ++ Ops.Url.ops ++ Ops.Lzhuf.ops ++ Ops.Session.ops ++ Ops.Telnet.ops ++ Ops.Ardop.ops ++ Ops.Agwpe.ops ++ Ops.Message.ops ++ Ops.Status.ops
+  ++ Ops.Secure.ops ++ Ops.PosRep.ops ++ Ops.Msg.ops ++ Ops.Url.ops ++ Ops.Lzhuf.ops ++ Ops.Session.ops ++ Ops.Telnet.ops ++ Ops.Ardop.ops ++ Ops.Agwpe.ops ++ Ops.Message.ops ++ Ops.Status.ops ++ Ops.Mbox.ops
 
 def step (line : String) : String :=
   match line.trimAscii.toString.splitOn " " with
